@@ -178,7 +178,7 @@ theorem extract_fold (h : Fam c ms A B T o fs) (u : String) (tail : List Sel) : 
     have := extract_fold h u tail rest (acc ++ [Flat.leaf f.1 f.2.1]) hrest
     simp only [Flat.leaf] at this
     rw [this]
-    simp [List.append_assoc, Flat.leaf]
+    simp [List.append_assoc]
 
 /-- extraction of the object-valued root field at its owner `A`: `A`'s leaf fields of `T` stay
     (after the helper `id`), `B`'s go into ONE child step at insertion point `[o]` -/
